@@ -1,3 +1,4 @@
+import RNacos.Lemmas.NsRound
 import RNacos.Props.C07
 import RNacos.Model.Config
 /-!
@@ -103,5 +104,30 @@ theorem tmp_value_not_roundtripped :
 
 /-! ### non-vacuity -/
 example : Snapshotable ((Value.init "a" 1 7 none).refresh none (some "d")) := ⟨rfl, rfl, rfl, rfl⟩
+
+end RNacos.Props.C01
+
+/-! ## the namespace component
+
+`RNacos/Model/Namespace.lean` models `NamespaceActor` (entries with origin flags, the four Raft requests, the weak entries
+of namespaces that are merely in use, snapshot build and load).  It is executed by the `apply` driver against the node
+that never stops (the served list of user namespaces is part of every dump). -/
+namespace RNacos.Props.C01
+open RNacos.Namespace
+
+/-- **the snapshot round trip of the namespace component** (one of the per-component hypotheses of `restart_reproduces`,
+proved): a node that starts from a snapshot serves exactly the user-created namespaces - id, name, order - of the node that
+wrote it, whether or not they are also in use -/
+theorem namespace_component_roundtrip (s : State) (hnd : (ids s).Nodup)
+    (hsys : ∀ e ∈ s, e.1 = "" → hasFlag e.2.flag fUser = false) (hpub : ∀ e ∈ s, e.1 ≠ "public") :
+    userList (loadSnapshot initial (buildSnapshot s)) = userList s :=
+  namespace_snapshot_roundtrip s hnd hsys hpub
+
+/-- kept visible (known finding F32): `AddOnly` / `Update` depend on whether the weak entry of the namespace has already
+arrived from the config actor -/
+theorem namespace_addOnly_order_dependent :
+    userList (setWeak (apply initial (.addOnly "ns2" (some "name34"))) "ns2" fConfig) ≠
+    userList (apply (setWeak initial "ns2" fConfig) (.addOnly "ns2" (some "name34"))) :=
+  addOnly_depends_on_order
 
 end RNacos.Props.C01
